@@ -12,7 +12,7 @@ RULE = ("every case is executed on hash_based / kdtree and on nearest_neighbor; 
         "reference {(i,j,lev)<=k} and the engines' sets with each other (differential); non-trivial = expected set non-empty")
 ASSUMPTIONS = ["hash_based is exponential in max_edits: k=2 up to U(.,4)/(thorough U(.,5) one alphabet), k=3 only on U(.,2)",
                "kdtree radius-boundary family uses homopolymer blocks so that the composition vectors differ by exactly sqrt(2)*k"]
-REQUIRED_CLASSES = {"all": ["bin-straddling-alphabet", "radius-boundary-pair", "duplicate-at-distance-0", "has-empty-string", "size-boundary-family", "equal-length-pair-needs-indels", "long-anagram-pair", "all-sequences-of-one-length", "shared-prefix-and-suffix", "default-call-after-option-call"]}
+REQUIRED_CLASSES = {"all": ["bin-straddling-alphabet", "radius-boundary-pair", "duplicate-at-distance-0", "has-empty-string", "size-boundary-family", "equal-length-pair-needs-indels", "long-anagram-pair", "all-sequences-of-one-length", "shared-prefix-and-suffix", "default-call-after-option-call", "one-composition-many-sequences"]}
 MIN_OUTCOMES = 10
 
 ALPHAS = ("ACD", "DEF", "WYA")   # straddle kdtree composition bins at compression 1, 2, 3 (aminoacids = ACDEFGHIKLMNPQRSTVWY)
@@ -53,6 +53,9 @@ def spaces(tier):
         yield ("eqlen-uni", "hash_based", "ACD", 3, 2)
         yield ("flanks",)
         yield ("after-max_returns",)
+        for word in ("AACD", "ACDE", "AAACC", "CASSF"):
+            for copies in (0, 11):
+                yield ("samecomp", word, copies)
         if not q:
             yield ("hash4",)
         yield ("sizefam", "kdtree", 1025, 2)
@@ -170,6 +173,15 @@ def check_case(case, acc):
                     for eng in ("kdtree",) + (("hash_based",) if k <= 2 else ()):
                         if compare(acc, ("one", eng, tuple(sub), k), eng, sub, k, exp, True) is None:
                             pass
+    elif kind == "samecomp":
+        # more than ten sequences of one and the same composition that are not all identical (anagrams, a clone plus its transpositions)
+        _, word, copies = case
+        acc.cls("one-composition-many-sequences")
+        seqs = E.composition_family(word, copies, extra=("CA", word + "A", word[:-1]))
+        for k in (1, 2, 3):
+            exp = neighbors_within(seqs, k)
+            for eng in ("kdtree",) + (("hash_based",) if k <= (2 if len(word) <= 4 else 1) else ()):
+                compare(acc, case + (eng, k), eng, seqs, k, exp, False)
     elif kind == "anagram":
         # block swaps: identical composition (always KD-tree candidates of each other) at a large, exactly known distance
         n = case[1]
